@@ -53,6 +53,7 @@ type desc struct {
 	NFun    int         `json:"nfun,omitempty"`
 	Cutoff  float64     `json:"cutoff,omitempty"`
 	CPU     float64     `json:"cpu,omitempty"`        // marching cases: cubes per unit of the canvases (0 = 1)
+	Add2    bool        `json:"add_parallel2,omitempty"` // marching cases: the parallel canvas is filled by AddFieldParallel2 (workers compute value arrays, the caller adds them in arrival order)
 	MAttr   int         `json:"march_attr,omitempty"` // marching cases: attribute marched (0 = March/MarchParallel, k = MarchOnAttribute[Parallel]("a<k>"))
 	NoMarch bool        `json:"no_march,omitempty"` // marching cases: only AddField vs AddFieldParallel
 	Seam    bool        `json:"seam,omitempty"`     // marching cases: surface extremes placed around a block border
@@ -477,6 +478,43 @@ func attrMarch(thorough bool) []desc {
 	return out
 }
 
+// ---- AddFieldParallel2 -------------------------------------------------------------------------------------------
+func add2Plan(thorough bool) []desc {
+	var out []desc
+	add := func(d desc, race bool) {
+		d.Entry, d.Add2, d.RaceSub = "march", true, race
+		if d.Cutoff == 0 && !d.NoMarch {
+			d.Cutoff = surfaceOffset
+		}
+		out = append(out, d)
+	}
+	one := sphereField([3]int{10, 10, 10}, [3]int{30, 30, 30}, 15)
+	two := sphereField([3]int{85, 10, 10}, [3]int{115, 40, 40}, 21)
+	eight := sphereField([3]int{85, 85, 85}, [3]int{115, 115, 115}, 21)
+	neg := sphereField([3]int{-15, 5, 5}, [3]int{15, 35, 35}, 21)
+	edge := sphereField([3]int{70, 10, 10}, [3]int{99, 40, 40}, 19) // the box ends on a chunk boundary: an empty job
+	tube := fieldDesc{R: 3.5, Tube: 1, C: [3]int{0, 50, 50}, Lo: [3]int{-294, 43, 43}, Hi: [3]int{294, 57, 57}}
+	add(desc{NFun: 1, Fields: []fieldDesc{one}}, true)
+	add(desc{NFun: 2, Fields: []fieldDesc{two}}, false)
+	add(desc{NFun: 2, Fields: []fieldDesc{two}, NoMarch: true, Reps: 2}, true)
+	add(desc{NFun: 3, Fields: []fieldDesc{two}, NoMarch: true, Reps: 2}, true)
+	add(desc{NFun: 1, Fields: []fieldDesc{eight}, NoMarch: true}, true)
+	// 6 chunks x 3 functions = 18 jobs for runtime.NumCPU() workers
+	add(desc{NFun: 3, Fields: []fieldDesc{tube}, NoMarch: true}, true)
+	add(desc{NFun: 2, Fields: []fieldDesc{neg, edge}, NoMarch: true}, false)
+	add(desc{NFun: 2, CPU: 2, Fields: []fieldDesc{sphereField([3]int{42, 5, 5}, [3]int{58, 20, 20}, 15)}, NoMarch: true}, true)
+	if thorough {
+		two3 := two
+		two3.NFun = 3
+		add(desc{NFun: 1, Fields: []fieldDesc{one, two3, neg}}, true) // a later field introduces two attributes
+		add(desc{NFun: 1, Fields: []fieldDesc{eight}}, false)
+		for _, p := range []int{1, 2, 4} {
+			add(desc{NFun: 3, Fields: []fieldDesc{two}, NoMarch: true, Reps: 4, Procs: p}, true)
+		}
+	}
+	return out
+}
+
 // ---- seam canvases -------------------------------------------------------------------------------------
 // The last layer of cubes of a block (local index 99) takes its +x/+y/+z corners from the first samples of the
 // neighbouring block.  A small signed-distance sphere (cutoff 0, never-written cells are outside) is placed so that
@@ -642,7 +680,9 @@ func randomSequence(r *hx.Rng) desc {
 			f = clipAt(f, axis, side, border)
 		}
 		slot++
-		d.Ops = append(d.Ops, addOp(f, r.Bool()), marchOp(cut()))
+		op := addOp(f, r.Bool())
+		op.Par2 = r.Chance(1, 3)
+		d.Ops = append(d.Ops, op, marchOp(cut()))
 		if r.Chance(1, 3) {
 			d.Ops = append(d.Ops, marchOp(cut()))
 		}
@@ -898,6 +938,11 @@ func buildPlan(tier string, seed uint64, n int) []desc {
 	// default one (MarchOnAttribute / MarchOnAttributeParallel), canvases with 2 and 1/2 cubes per unit
 	for i, d := range attrMarch(thorough) {
 		d.RaceSub = thorough && i%3 == 0
+		plan = append(plan, d)
+	}
+	// AddFieldParallel2 against AddField: 1-3 Float1 functions, one and many blocks, more jobs than workers, negative
+	// chunks, a box ending on a chunk boundary, 2 cubes per unit; normal and -race binary
+	for _, d := range add2Plan(thorough) {
 		plan = append(plan, d)
 	}
 	// surfaces whose extremes lie in / next to the seam layer between two blocks
